@@ -7,7 +7,7 @@
 //! cross-checked against `findall/3` run inside Prolog. Fault-injecting configuration: an
 //! interrupt injected into one `next()`; relaxation: that query may end with the interrupt ball.
 
-use super::{Check, Outcome, Tier};
+use super::{panic_key, Check, Outcome, Tier};
 use crate::mach::{Ans, Mach, QOut};
 use crate::prng::{hash_bytes, Prng};
 use scryer_prolog::verif_hooks as vh;
@@ -22,6 +22,10 @@ enum Eff {
     Clear,
     /// observer: expected bindings `L=<log>`
     ReadLog,
+    /// non-backtrackable global variable `pk` := n (persists across queries)
+    BbPut(i64),
+    /// observer of `pk`
+    BbGet,
 }
 
 struct PoolQ {
@@ -101,6 +105,18 @@ const POOL: &[PoolQ] = &[
     PoolQ { text: "assertz(lg(7)).", eff: Eff::Log(&[7]), vars: &[] },
     PoolQ { text: "retractall(lg(_)).", eff: Eff::Clear, vars: &[] },
     PoolQ { text: "findall(X, lg(X), L).", eff: Eff::ReadLog, vars: &[] },
+    // global variables: backtrackable assignments are undone when the query is left,
+    // non-backtrackable ones persist (modelled)
+    q("bb_b_put(vk, 42), member(X, [1,2,3])."),
+    q("bb_b_put(vk, f(Y, \"s\")), ( X = 1 ; X = 2 )."),
+    q("bb_get(vk, V)."),
+    q("bb_b_put(vk, 1), bb_get(vk, V), member(X, [a,b]), bb_b_put(vk, X)."),
+    PoolQ { text: "bb_put(pk, 7).", eff: Eff::BbPut(7), vars: &[] },
+    PoolQ { text: "bb_put(pk, 8), member(X, [1,2]).", eff: Eff::BbPut(8), vars: &[] },
+    PoolQ { text: "bb_get(pk, V).", eff: Eff::BbGet, vars: &[] },
+    // attributed variables and the attribute goal queue across an abandoned query
+    q("freeze(X, member(Y, [1,2,3])), X = go."),
+    q("dif(A, B), member(A-B, [1-1, 1-2, 2-2, 3-4])."),
 ];
 
 const INFINITE: &[&str] = &["vh_nat(N).", "repeat."];
@@ -115,11 +131,13 @@ pub struct C28 {
     fresh_ticks: Vec<u64>,
     /// model of the lg/1 log on the current machine
     log: Vec<i64>,
+    /// model of the global variable pk
+    bb: Option<i64>,
 }
 
 impl C28 {
     pub fn new() -> Self {
-        C28 { pristine: None, fresh: vec![], fresh_ticks: vec![], log: vec![] }
+        C28 { pristine: None, fresh: vec![], fresh_ticks: vec![], log: vec![], bb: None }
     }
 }
 
@@ -244,6 +262,7 @@ impl Check for C28 {
             Some(m) if m.alive() => m,
             _ => {
                 self.log.clear();
+                self.bb = None;
                 Mach::new()
             }
         };
@@ -320,6 +339,17 @@ impl Check for C28 {
                 let l = if log.is_empty() { "L=[]".to_string() } else { format!("L=[{}]", l.join(",")) };
                 want_items = vec![Ans::Bind(l)].into_iter().take(take).collect();
             }
+            let mut want_ended = want_ended;
+            if eff == Eff::BbGet {
+                want_items = match self.bb {
+                    Some(n) => vec![Ans::Bind(format!("V={}", n))],
+                    None => vec![Ans::False],
+                }
+                .into_iter()
+                .take(take)
+                .collect();
+                want_ended = take > 1;
+            }
             let want = QOut { items: want_items, ended: want_ended, panic: None };
 
             let ok = if fired {
@@ -354,6 +384,19 @@ impl Check for C28 {
                         // the interrupt may have struck right after the assertz ran: resync from the machine
                         let r = m.all("findall(X, lg(X), L).");
                         log = parse_log(&r);
+                    }
+                }
+                Eff::BbPut(n) => {
+                    let computed = got.items.iter().any(|a| !matches!(a, Ans::False) && !a.is_exception());
+                    if computed {
+                        self.bb = Some(n);
+                    } else if fired {
+                        // the interrupt may have struck right after bb_put ran: resync
+                        let r = m.all("bb_get(pk, V).");
+                        self.bb = match r.items.first() {
+                            Some(Ans::Bind(b)) => b.trim_start_matches("V=").parse().ok(),
+                            _ => None,
+                        };
                     }
                 }
                 Eff::Clear => {
@@ -451,16 +494,6 @@ impl Check for C28 {
             "stub": ["embedding application (simulated: seeded history, consume prefix, drop)", "interrupt source (injected at tick n inside one next())"],
         })
     }
-}
-
-fn panic_key(p: &str) -> String {
-    // file:line: msg  -> file: msg-without-digits (line drift tolerant)
-    let mut parts = p.splitn(3, ':');
-    let file = parts.next().unwrap_or("");
-    let _line = parts.next();
-    let msg = parts.next().unwrap_or("");
-    let msg: String = msg.chars().filter(|c| !c.is_ascii_digit()).take(80).collect();
-    format!("panic:{}:{}", file.trim_start_matches("/repo/"), msg.trim())
 }
 
 fn faulted_ok(got: &QOut, want: &QOut) -> bool {
